@@ -467,6 +467,8 @@ def run(chk):
     chk.guard(c02.rule_r6, chk, rid="C01-R7", sites=(1,))
     from . import c06
     chk.guard(c06.rule_r7, chk, rid="C01-R8", modules=("irispie.fords.simulators", "irispie.fords.shock_simulators"))
+    from .. import unused as _unused
+    chk.guard(_unused.apply, chk, "C01-R91")
     from .. import args as _args
     chk.guard(_args.apply, chk, "C01-R90", {'fords'}, 1)
     chk.assumptions = [
